@@ -253,7 +253,7 @@ func (m *Machine) noteSync() {
 	for f := m.curFrame; ; f = f.caller {
 		if pos.IsValid() {
 			p := m.P.Fset.Position(pos)
-			if strings.HasPrefix(p.Filename, "/repo/") && !strings.Contains(p.Filename, "zz_verif_nd.go") {
+			if strings.HasPrefix(p.Filename, m.P.RepoDir+"/") && !strings.Contains(p.Filename, "zz_verif_nd.go") {
 				if m.posCount == nil {
 					m.posCount = map[string]int{}
 				}
@@ -303,7 +303,7 @@ func (m *Machine) noteEntry(fn *ssa.Function) {
 		return
 	}
 	p := m.P.Fset.Position(lb)
-	if !strings.HasPrefix(p.Filename, "/repo/") || strings.Contains(p.Filename, "zz_verif_nd.go") {
+	if !strings.HasPrefix(p.Filename, m.P.RepoDir+"/") || strings.Contains(p.Filename, "zz_verif_nd.go") {
 		return
 	}
 	g.firstCall = false
